@@ -65,6 +65,30 @@ def _in_list(node, lst):
     return any(node is x for x in lst)
 
 
+def early_exit_guards(node: ast.AST, stop: ast.AST | None = None):
+    """Guards established by the early-exit idiom: an earlier sibling `if T: ...raise/return/continue/break` (no else) in
+    any statement list enclosing `node` means T is false where `node` runs.  Returns [(test, False), ...]."""
+    out = []
+    child = node
+    for anc in ancestors(node):
+        if anc is stop or isinstance(anc, ast.FunctionDef | ast.AsyncFunctionDef | ast.Lambda | ast.ClassDef):
+            stop_here = True
+        else:
+            stop_here = False
+        for field in ("body", "orelse", "finalbody"):
+            lst = getattr(anc, field, None)
+            if isinstance(lst, list) and _in_list(child, lst):
+                for prev in lst:
+                    if prev is child:
+                        break
+                    if isinstance(prev, ast.If) and not prev.orelse and prev.body and isinstance(prev.body[-1], ast.Raise | ast.Return | ast.Continue | ast.Break):
+                        out.append((prev.test, False))
+        if stop_here:
+            break
+        child = anc
+    return out
+
+
 def guard_texts(node: ast.AST, stop=None) -> list[str]:
     return [("" if pol else "not ") + norm(t) for t, pol in guards_of(node, stop)]
 
